@@ -27,6 +27,11 @@ pub struct VO {
     pub content: u8,
     pub addr: usize,
 }
+thread_local! {
+    /// serials of the stale entries the serde executor puts into an in-place deserialization target
+    static STALE: std::cell::RefCell<Vec<u32>> = const { std::cell::RefCell::new(Vec::new()) };
+}
+
 /// capacity of the second operand of the trace operations eq_other / s_eq_other
 pub const OTHER_CAP: usize = 310;
 
@@ -913,7 +918,10 @@ pub fn exec_map<const N: usize>(cage: &mut Cage<Map<Key, Val, N>>, op: &Value, c
                         // Deserialize::deserialize_in_place into a target that already holds a stale entry
                         let mut target: Map<Key, Val, M> = Map::new();
                         if M > 0 {
-                            target.insert(Key::new(777, 0), Val::new(9));
+                            // (the stale entry is the harness' own: its destruction is not part of the observed step)
+                            let (k, v) = (Key::new(777, 0), Val::new(9));
+                            STALE.with(|x| x.borrow_mut().extend([k.serial, v.serial]));
+                            target.insert(k, v);
                         }
                         let mut d = serde_json::Deserializer::from_slice(data);
                         serde::Deserialize::deserialize_in_place(&mut d, &mut target).ok()?;
@@ -940,6 +948,8 @@ pub fn exec_map<const N: usize>(cage: &mut Cage<Map<Key, Val, N>>, op: &Value, c
             }
             let m = &cage.m;
             let mut r = with_n!(mcap, de, fmt, &data, &|d| d == m && m == d, ctx, s(op, "place") == "inplace");
+            let stale: Vec<u32> = STALE.with(|x| std::mem::take(&mut *x.borrow_mut()));
+            ledger::with(|l| l.drops.retain(|(_, sr)| !stale.contains(sr)));
             r["announced"] = json!(announced);
             r["emitted"] = json!(emitted);
             r
@@ -1929,7 +1939,9 @@ pub fn exec_set<const N: usize>(cage: &mut Cage<Set<Key, N>>, op: &Value, ctx: &
                     if inplace && fmt == "json" {
                         let mut target: Set<Key, M> = Set::new();
                         if M > 0 {
-                            target.insert(Key::new(777, 0));
+                            let k = Key::new(777, 0);
+                            STALE.with(|x| x.borrow_mut().push(k.serial));
+                            target.insert(k);
                         }
                         let mut d = serde_json::Deserializer::from_slice(data);
                         serde::Deserialize::deserialize_in_place(&mut d, &mut target).ok()?;
@@ -1955,6 +1967,8 @@ pub fn exec_set<const N: usize>(cage: &mut Cage<Set<Key, N>>, op: &Value, ctx: &
             }
             let m = &cage.m;
             let mut r = with_n!(mcap, de, fmt, &data, &|d| d == m && m == d, ctx, s(op, "place") == "inplace");
+            let stale: Vec<u32> = STALE.with(|x| std::mem::take(&mut *x.borrow_mut()));
+            ledger::with(|l| l.drops.retain(|(_, sr)| !stale.contains(sr)));
             r["announced"] = json!(announced);
             r["emitted"] = json!(emitted);
             r
